@@ -82,9 +82,11 @@ type chanState struct {
 	closed bool
 	// timer channels (mcrt.After): the single value may be delivered at any
 	// step; the virtual clock then jumps to the wake time
-	timer bool
-	fired bool
-	wake  time.Time
+	timer  bool
+	fired  bool
+	wake   time.Time
+	ticker bool
+	period time.Duration
 	// pin keeps the real channel alive: the side table is keyed by its address,
 	// which the garbage collector must not hand to another channel meanwhile
 	pin interface{}
@@ -693,7 +695,11 @@ func (s *Sched) doRecv(t *thread, ch *chanState) {
 		if s.now.Before(ch.wake) {
 			s.now = ch.wake
 		}
-		ch.fired = true
+		if ch.ticker {
+			ch.wake = s.now.Add(ch.period)
+		} else {
+			ch.fired = true
+		}
 		t.result, t.ok, t.resH = s.now, true, uint64(s.now.UnixNano())
 	case len(ch.buf) > 0:
 		t.result, t.ok = ch.buf[0], true
